@@ -73,6 +73,25 @@ class C14(Prop):
             if not b.get('ok') or b['tree'] != a['tree'] or b['read'] != a['read']:
                 fails.append({'input': l, 'expected': 'tree %s read %s (as for x alone)' % (a['tree'], a['read']), 'observed': o,
                               'why': 'decoding x followed by y differs from decoding x alone'})
+        # x at the front of a window of several GiB (what follows are zero bytes = further items): same tree, same read
+        big = [x for x in wf if 1 <= len(x) <= 40][:: (3 if tier == 'thorough' else 17)][:60]
+        totals = [2 ** 31 - 1, 2 ** 31, 2 ** 31 + 1, 2 ** 31 + 2, 5 * 2 ** 29, 3 * 2 ** 30, 2 ** 32 - 1, 2 ** 32, 2 ** 32 + 1, 2 ** 32 + 7, 13 * 2 ** 29, 2 ** 33 + 3]
+        bl = ['LOADBIG %s %d' % (gen.hexs(x), t + (len(x) if i % 2 else 0)) for i, x in enumerate(big) for t in totals]
+        bo, rcb, errb = ctx.run_c(bl)
+        if rcb != 0:
+            i, l, e = core.first_crash_line(ctx.harness, bl)
+            fails.append({'input': l, 'expected': 'a result', 'observed': 'implementation aborted', 'why': e[-600:]})
+        else:
+            k = 0
+            for x in big:
+                a = dec.parse_load(alone[x])
+                for t in totals:
+                    l, o = bl[k], bo[k]; k += 1
+                    ctx.count(l, o); ctx.bump('window_GiB')
+                    if o == 'no-map': continue
+                    exp = 'OK %s read=%s' % (a['tree'], a['read']) if a.get('ok') else None
+                    if exp and o != exp:
+                        fails.append({'input': l, 'expected': exp[:300], 'observed': o[:300], 'why': 'decoding x at the front of a large window differs from decoding x alone'})
         # sequences: split a concatenation of up to 6 items by repeated decoding at the advanced offset
         for _ in range(400 if tier == 'thorough' else 60):
             items = [rng.choice(wf[:200]) for _ in range(1 + rng.below(6))]
@@ -110,6 +129,8 @@ class C14(Prop):
         l = rp['failure']['input']
         o, rc, _ = ctx.run_c([l])
         exp = rp['failure']['expected']
+        if l.startswith('LOADBIG'):
+            return [dict(rp['failure'], observed=o[0] if o else 'abort')] if rc != 0 or not o or o[0] != exp else []
         if l.startswith('LOADSEQ'):
             return [dict(rp['failure'], observed=o[0] if o else 'abort')] if rc != 0 or not o or o[0] != exp else []
         if rc != 0: return [dict(rp['failure'], observed='implementation aborted')]
